@@ -64,9 +64,10 @@ impl Ssh {
         let task = tokio::spawn(async move {
             let mut in_buf = BytesMut::new();
             let message_break = Finder::new(MARKER);
+            let mut out_open = true;
             loop {
                 tokio::select! {
-                    to_send = out_queue_rx.recv() => {
+                    to_send = out_queue_rx.recv(), if out_open => {
                         tracing::debug!("attempting to send message");
                         tracing::trace!(?to_send);
                         // TODO:
@@ -74,9 +75,16 @@ impl Ssh {
                         if let Some(data) = to_send {
                             channel.data(data.as_ref()).await?;
                         } else {
-                            break;
+                            // the sending half is gone, but replies may still be owed to the
+                            // receiving half: keep delivering until that is dropped too
+                            tracing::debug!("send queue closed");
+                            out_open = false;
                         };
                         tracing::trace!("message sent");
+                    }
+                    () = in_queue_tx.closed(), if !out_open => {
+                        tracing::info!("both queues closed, hanging up");
+                        break;
                     }
                     msg = channel.wait() => {
                         if let Some(msg) = msg {
